@@ -39,7 +39,7 @@ def install_streams(bools, rets):
         k = wc.ctx.get('ns', 0)
         wc.ctx.ns = k + 1
         wc.ctx.trace = wc.ctx.get('trace', []) + [('s', i)]
-        wc.out(f'o{k}', i)
+        wc.out(f'o{k}', i + wc.inputs.d - 1)      # reads a defaulted input: parsed inputs must survive a restore
         if k >= len(rets):
             return None
         r = rets[k]
